@@ -36,6 +36,11 @@ CLAIMED = {
   "Tidy.tla: universes (tidy registry modules with root/sub packages, versioned dependency lists, a main module with arbitrary imports and stale/missing/unused/inconsistent dependency entries) are TLC-generated (seeded RandomSubset); TLC checks the model's own theorem (the abstract strategy yields a TidyOK result). Each universe is materialised as an in-memory registry and main module; the real Tidy runs, then again on its own output, CheckTidy, and twice with permuted files and random registry latency; TLC evaluates TidyOK (every import of the closure resolves, exactly the needed modules, each at its minimal-version-selection version), NotLower, idempotence, check acceptance and order independence on the recorded results. A panic or a 30 s hang is a violation. ModFile.tla enumerates module files and 9 malformations: well-formed ones must round-trip through Format/Parse, malformed ones must be rejected.",
   "trusted: TLC, the TidyOK transcription, the materialisation of universes. Not covered: major-version suffixes/default major versions, replace directives, build attributes; when Tidy reports an error only reproducibility under permutation is required (whether an error is mandated depends on resolution details outside the model). Canary (corrupted result) must be rejected.",
   "DESIGN.md §3 C17"),
+ "C04": ("model_checking",
+  "TLA+ executable model of the spec's value/default-pair rules (CueDisj.tla: U0-U2, D0-D2, M0-M1, elimination of failed marked disjuncts), checked by TLC; every TLC state replayed into the real evaluator",
+  "CueDisj.tla computes for every expression D1 & D2 (& D3) of disjunctions over 10 leaves (atoms, types, a bound, open structs) with every pattern of top-level marks the value/default pair, its resolution (unique value / ambiguous / bottom), and the same for the expression unified with each of 8 concrete probes; TLC checks commutativity/rotation, idempotence on atoms and D within V. All expressions with two operands of <= 2 alternatives are enumerated exhaustively (168 511 states), three operands and up to 3 alternatives as a seeded sample. Each state is evaluated by the real evaluator: bottom iff no disjunct survives, an ambiguous choice must be an incomplete error and never a silently chosen value, a unique concrete resolution must be that value. Outcomes on which pairwise readings of the rules disagree, or with more than two marked operands (where the spec's elimination sentence is admittedly unfinished), are counted and left out.",
+  "trusted: TLC, the transcription of the rules, the renderer; canaries (flipped expectation) must be noticed. Nested marks are outside (as the property states).",
+  "DESIGN.md §3 C04"),
 }
 
 NOT_YET = "check not built yet in this round (see DESIGN.md §8 for the order of construction)"
